@@ -17,6 +17,10 @@
 //	uescape   \uXXXX escapes: boundary and random values, truncated forms
 //	text      random token sequences with random layout (valid UTF-8, mostly valid lexically)
 //	hostile   byte-level mutations of such texts (invalid UTF-8, control characters, truncation)
+//	api       the same kinds of inputs, plus an arbitrary sequence of API calls (Scan, Token,
+//	          Position, Literal, StringValue, Errors in any order, observers before the first
+//	          Scan, repeated observers, Scan after the end) on a fresh scanner whose source slice
+//	          has capacity == length; every answer (or panic) is recorded
 package main
 
 import (
@@ -68,6 +72,136 @@ func runCase(src string) sexp.Node {
 		sexp.T("src", sexp.Bytes(b)),
 		sexp.Node{Kind: 'l', List: append([]sexp.Node{sexp.Sym("ign")}, ign.List...)},
 		sexp.Node{Kind: 'l', List: append([]sexp.Node{sexp.Sym("sig")}, sig.List...)})
+}
+
+// ---- arbitrary API call sequences ----
+
+const (
+	cScan = iota
+	cToken
+	cPosition
+	cLiteral
+	cStringValue
+	cErrors
+)
+
+// one call; a panic of the call is an observation (the scanner is left as it was: the observers
+// do not write)
+func apiCall(s *scanner.Scanner, c int) (resp sexp.Node) {
+	defer func() {
+		if e := recover(); e != nil {
+			resp = sexp.Sym("panic")
+		}
+	}()
+	switch c {
+	case cScan:
+		if s.Scan() {
+			return sexp.Int(1)
+		}
+		return sexp.Int(0)
+	case cToken:
+		return sexp.Int(int(s.Token()))
+	case cPosition:
+		p := s.Position()
+		return sexp.L(sexp.Int(p.Line), sexp.Int(p.Column))
+	case cLiteral:
+		return sexp.Str(s.Literal())
+	case cStringValue:
+		return sexp.Str(s.StringValue())
+	default:
+		var errs []sexp.Node
+		for _, e := range s.Errors() {
+			errs = append(errs, sexp.L(sexp.Int(e.Line), sexp.Int(e.Column)))
+		}
+		return sexp.L(errs...)
+	}
+}
+
+func runAPICase(src string, mode scanner.Mode, calls []int) sexp.Node {
+	n := runCase(src)
+	// capacity == length: slicing past the end of the source panics instead of reading whatever
+	// lies behind it
+	b := make([]byte, len(src))
+	copy(b, src)
+	b = b[:len(b):len(b)]
+	s := scanner.New(b, mode)
+	cs := make([]sexp.Node, len(calls))
+	rs := make([]sexp.Node, len(calls))
+	scans := 0
+	for i, c := range calls {
+		if c == cScan {
+			// guard against a scanner that no longer terminates / keeps answering true
+			if scans++; scans > 2*len(src)+64 {
+				c = cToken
+			}
+		}
+		cs[i] = sexp.Int(c)
+		rs[i] = apiCall(s, c)
+	}
+	m := 0
+	if mode != 0 {
+		m = 1
+	}
+	// the canonical loop once more, recording how many errors have been reported after each Scan
+	// (the last, false one included): Errors() at cursor j must be exactly that many
+	var counts []sexp.Node
+	s2 := scanner.New(b, mode)
+	for k := 0; ; k++ {
+		ok := s2.Scan()
+		counts = append(counts, sexp.Int(len(s2.Errors())))
+		if !ok || k > len(src) {
+			break
+		}
+	}
+	n.List = append(n.List, sexp.T("api", sexp.Int(m), sexp.L(cs...), sexp.L(rs...), sexp.L(counts...)))
+	return n
+}
+
+var observers = []int{cToken, cPosition, cLiteral, cStringValue, cErrors}
+
+// a random call sequence; long enough, for most inputs, to run past the end of the input
+func randomCalls(r *rng.R) []int {
+	var cs []int
+	if r.Chance(1, 3) { // observers before the first Scan
+		for k := r.Range(1, 4); k > 0; k-- {
+			cs = append(cs, rng.Pick(r, observers))
+		}
+	}
+	n := r.Range(1, 40)
+	pScan := r.Range(2, 8) // out of 10
+	for i := 0; i < n; i++ {
+		if r.Intn(10) < pScan {
+			cs = append(cs, cScan)
+		} else {
+			c := rng.Pick(r, observers)
+			cs = append(cs, c)
+			if r.Chance(1, 4) { // the same observer again
+				cs = append(cs, c)
+			}
+		}
+	}
+	if r.Chance(1, 2) { // all observers at the end, twice
+		cs = append(cs, observers...)
+		cs = append(cs, observers...)
+	}
+	return cs
+}
+
+// the canonical loop with every observer after every Scan, then three more Scans with observers
+func fullCalls(nbytes int) []int {
+	cs := append([]int{}, observers...)
+	for i := 0; i < nbytes+3; i++ {
+		cs = append(cs, cScan)
+		cs = append(cs, observers...)
+	}
+	return cs
+}
+
+func randomMode(r *rng.R) scanner.Mode {
+	if r.Bool() {
+		return scanner.ScanIgnored
+	}
+	return 0
 }
 
 func watchdog() {
@@ -461,6 +595,38 @@ func main() {
 		}
 		for i := 0; i < pick(6000, 100000); i++ {
 			h.Case(func(r *rng.R) sexp.Node { return runCase(mutate(r, randomText(r, r.Chance(1, 4)))) })
+		}
+		// API call sequences
+		for _, src := range regress {
+			src := src
+			h.Case(func(r *rng.R) sexp.Node { return runAPICase(src, scanner.ScanIgnored, fullCalls(len(src))) })
+			h.Case(func(r *rng.R) sexp.Node { return runAPICase(src, 0, fullCalls(len(src))) })
+			h.Case(func(r *rng.R) sexp.Node { return runAPICase(src, randomMode(r), randomCalls(r)) })
+		}
+		for n := 1; n <= 2; n++ {
+			for i := 0; i < pow(len(dense), n); i++ {
+				src := word(dense, n, i)
+				h.Case(func(r *rng.R) sexp.Node { return runAPICase(src, randomMode(r), fullCalls(len(src))) })
+				h.Case(func(r *rng.R) sexp.Node { return runAPICase(src, randomMode(r), randomCalls(r)) })
+			}
+		}
+		for i := 0; i < pick(6000, 80000); i++ {
+			h.Case(func(r *rng.R) sexp.Node {
+				var src string
+				switch r.Intn(6) {
+				case 0:
+					src = randomBlock(r)
+				case 1, 2:
+					src = randomText(r, false)
+				case 3:
+					src = randomText(r, true)
+				case 4:
+					src = mutate(r, randomText(r, r.Chance(1, 4)))
+				default:
+					src = word(core, 3, r.Intn(pow(len(core), 3)))
+				}
+				return runAPICase(src, randomMode(r), randomCalls(r))
+			})
 		}
 	})
 }
